@@ -134,10 +134,15 @@ pub fn run(ctx: &Ctx) {
         ("halt_if_index", vec![T::HaltIf.into(), push(1), M::Alloc.into(), S::Pop.into()]),
         ("halt", vec![S::Pop.into(), T::Halt.into()]),
         ("error_if_index_0", vec![push(1), S::Swap.into(), Alu::Div.into(), S::Pop.into()]),
+        ("alloc_index_parity", vec![S::Dup.into(), push(2), Alu::Mod.into(), M::Alloc.into(), S::Pop.into(), S::Pop.into()]),
+        ("alloc_if_index_ge_3", vec![S::Dup.into(), push(3), asm::Pred::Gte.into(), M::Alloc.into(), M::Store.into()]),
+        ("read_parent_range", vec![S::Pop.into(), push(0), push(2), PM::LoadRange.into(), push(2), M::Alloc.into(), S::Pop.into(), push(0), M::Store.into(), push(1), M::Store.into()]),
+        ("state_read_in_child", vec![S::Pop.into(), push(4), M::Alloc.into(), S::Pop.into(), push(7), push(1), push(2), push(0), asm::StateRead::KeyRange.into()]),
+        ("repeat_in_child", vec![push(1), asm::Stack::Repeat.into(), push(1), M::Alloc.into(), S::Pop.into(), asm::Stack::RepeatEnd.into()]),
         ("nested_compute", vec![S::Pop.into(), push(1), Compute::Compute.into(), S::Pop.into(), Compute::ComputeEnd.into()]),
         ("nested_compute_index_1", vec![push(3), S::Swap.into(), T::JumpIf.into(), push(1), T::HaltIf.into(), push(2), Compute::Compute.into(), S::Pop.into(), Compute::ComputeEnd.into()]),
     ];
-    let breadths: Vec<Word> = vec![1, 2, 3, 0, -1, 40];
+    let breadths: Vec<Word> = vec![1, 2, 3, 0, -1, 40, 41, 100, 257];
     let suffixes: Vec<(&str, Vec<asm::Op>)> = vec![("none", vec![]), ("push9", vec![push(9)]), ("end+push9", vec![Compute::ComputeEnd.into(), push(9)])];
     for (pn, pre) in &prefixes {
         for (bn, body) in &bodies {
@@ -148,7 +153,7 @@ pub fn run(ctx: &Ctx) {
                         if !with_end && *sn != "none" {
                             continue;
                         }
-                        if (*pn == "mem9941" || *pn == "mem10240") && n == 40 && !ctx.thorough {
+                        if (*pn == "mem9941" || *pn == "mem10240" || *sn != "push9") && n >= 40 && !ctx.thorough {
                             continue;
                         }
                         let id = format!("compute/{pn}/{bn}/{n}/{sn}/{}", with_end as u8);
